@@ -20,10 +20,11 @@ static const uint8_t  TYPV[] = { 1, 254, 255 };
 static const uint8_t  SUBK[] = { 1, 2, 8 };
 
 typedef struct { uint32_t cob; uint8_t type, count; uint32_t map[8]; } MP;       /* map[k-1] for sub k */
-static struct { uint8_t op; MP p[2]; } M;                                         /* p[0] RPDO #PN, p[1] TPDO #PN */
+static struct { uint8_t op, stopped; MP p[2]; } M;                                         /* p[0] RPDO #PN, p[1] TPDO #PN */
 /* cfg selects the number PN of the RPDO/TPDO pair under reconfiguration; the other three pairs are valid bystanders (one 16-bit object
  * each) that must keep working as configured whatever is written to pair PN - index arithmetic 14xxh/16xxh/18xxh/1Axxh + n */
 static int PN;
+#define STOPPED M.stopped
 static const uint32_t COBASE[2] = { 0x00000201u, 0x40000181u };
 #define COB0(pdo) (COBASE[pdo] + 0x100u * (uint32_t)PN)
 
@@ -32,7 +33,7 @@ static const uint32_t COBASE[2] = { 0x00000201u, 0x40000181u };
 #define K_CNT0 9
 #define K_MAP0 (K_CNT0 + NCNT)
 #define K_FILL0 (K_MAP0 + 3 * NMAPV)
-enum { E_START = 2 * EPP, E_PREOP, E_N };
+enum { E_START = 2 * EPP, E_PREOP, E_STOP, E_N };
 static uint32_t idval(int pdo, int k)
 {
     uint32_t base = COB0(pdo);
@@ -64,7 +65,7 @@ static int build(int cfg)
 static const char *ev_name(int e)
 {
     static char b[64];
-    if (e >= E_START) return e == E_START ? "NMT start" : "NMT pre-op";
+    if (e >= E_START) return e == E_START ? "NMT start" : e == E_PREOP ? "NMT pre-op" : "NMT stop";
     int pdo = e / EPP, k = e % EPP; uint16_t com = (uint16_t)((pdo ? 0x1800 : 0x1400) + PN), map = (uint16_t)((pdo ? 0x1A00 : 0x1600) + PN);
     if (k < 6) snprintf(b, sizeof b, "SDO %04Xh:1=%08X", com, idval(pdo, k));
     else if (k < 9) snprintf(b, sizeof b, "SDO %04Xh:2=%d", com, TYPV[k - 6]);
@@ -230,8 +231,10 @@ static int one_write(int e, int pdo, int kind, int sub, uint32_t val)
 
 static int step(int e)
 {
-    if (e == E_START) { int was = M.op; M.op = 1; nc_nmt(1, 0); if (!was) { if (valid(&M.p[1])) { probe_tpdo("entering OPERATIONAL"); probe_time("entering OPERATIONAL"); } if (valid(&M.p[0])) probe_rpdo("entering OPERATIONAL"); (void)probe_bystanders("entering OPERATIONAL"); } }
-    else if (e == E_PREOP) { M.op = 0; nc_nmt(128, 0); }
+    if (e == E_START) { int was = M.op; M.op = 1; STOPPED = 0; nc_nmt(1, 0); if (!was) { if (valid(&M.p[1])) { probe_tpdo("entering OPERATIONAL"); probe_time("entering OPERATIONAL"); } if (valid(&M.p[0])) probe_rpdo("entering OPERATIONAL"); (void)probe_bystanders("entering OPERATIONAL"); } }
+    else if (e == E_PREOP) { M.op = 0; STOPPED = 0; nc_nmt(128, 0); }
+    else if (e == E_STOP) { M.op = 0; STOPPED = 1; nc_nmt(2, 0); }        /* entering OPERATIONAL from STOPPED activates the stored configuration like any other entry */
+    else if (STOPPED) return MC_SKIP;                                    /* no SDO service in STOPPED */
     else {
         int pdo = e / EPP, k = e % EPP;
         if (k >= K_FILL0) {                               /* macro: the eight entry writes one after the other, each judged */
